@@ -225,6 +225,12 @@ example : (encodeWith "Base32" (fun v => some v) [102, 111, 111]).bind
 example : encodeWith "base32" (fun v => some v) [102, 111, 111] = some "MZXW6===" := by decide
 
 example : parseBase "base16" = none := by decide
+/-- near misses stay unknown: U+017F (long s) is a case-folding partner of `s` but not its lower-case form; padding and
+    look-alike letters are different names (round 11: a comparison by `EqualFold` accepted the first) -/
+example : parseBase "ba\u017fe64" = none ∧ parseBase "BA\u017fE32" = none ∧ parseBase "base64 " = none ∧ parseBase " hex" = none
+    ∧ parseBase "h\u0435x" = none ∧ parseBase "sha1" = none := by decide
+example : parseHash "\u017fha1" = none ∧ parseHash "\u017fHA256" = none ∧ parseHash "sha-1" = none ∧ parseHash "md5 " = none
+    ∧ parseHash "hex" = none ∧ parseHash "SHA512" ≠ none := by decide
 
 /-! ## HASH -/
 
